@@ -13,6 +13,7 @@ import (
 	"fmt"
 	"runtime"
 	"strings"
+	"sync/atomic"
 	"unsafe"
 )
 
@@ -62,6 +63,10 @@ type Task struct {
 	killed bool
 	steps  int
 	daemon bool
+	// doneEdge gives Done() join semantics for the race detector: a real
+	// atomic store at task exit, a real atomic load when Done() reports true
+	// (what a WaitGroup or channel would provide in a real client).
+	doneEdge atomic.Uint32
 }
 
 // Violation is the first oracle failure of a run.
@@ -140,18 +145,18 @@ type Sim struct {
 	TimerEarlyPermille int
 
 	// results
-	Failed   *Violation
-	Panics   []PanicInfo
-	Counts   map[string]int
-	hash     uint64
-	log      []string
-	logPos   int
-	Trunc    bool
-	Stalled  []string // tasks blocked at the end of the run
-	spinSig  uint64
-	spinRun  int
-	last     *Task
-	SpinHit  string
+	Failed  *Violation
+	Panics  []PanicInfo
+	counts  []countEntry
+	hash    uint64
+	log     []string
+	logPos  int
+	Trunc   bool
+	Stalled []string // tasks blocked at the end of the run
+	spinSig uint64
+	spinRun int
+	last    *Task
+	SpinHit string
 
 	// hooks
 	OnStep func() // runs on the controller after every step
@@ -159,7 +164,7 @@ type Sim struct {
 	births    map[unsafe.Pointer]int
 	nextBirth int
 
-	ended bool
+	ended      bool
 	mapScratch []int
 }
 
@@ -211,7 +216,7 @@ func Run(cfg Config, main func(s *Sim)) *Sim {
 	if cfg.SpinLimit == 0 {
 		cfg.SpinLimit = 2000
 	}
-	s := &Sim{cfg: cfg, ctl: newParker(), Counts: map[string]int{}, births: map[unsafe.Pointer]int{}}
+	s := &Sim{cfg: cfg, ctl: newParker(), births: map[unsafe.Pointer]int{}}
 	s.hash = 1469598103934665603
 	for i := 0; i < nStreams; i++ {
 		s.rng[i].seed(cfg.Seed*0x9E3779B97F4A7C15 + uint64(i+1)*0xD1B54A32D192ED03)
@@ -283,6 +288,7 @@ func taskExit(t *Task) {
 			t.s.Panics = append(t.s.Panics, PanicInfo{Task: t.Name, Value: fmt.Sprint(r), Stack: string(buf[:n])})
 		}
 	}
+	t.doneEdge.Store(1)
 	t.state = stDone
 	t.s.ctl.unpark()
 }
@@ -398,7 +404,7 @@ func (s *Sim) loop() {
 		}
 		if s.TimerEarlyPermille > 0 && len(s.timers) > 0 {
 			if s.chooseRaw(StreamFault, 1000) < s.TimerEarlyPermille {
-				s.Counts["fault:timer-early"]++
+				s.Count("fault:timer-early")
 				s.fireNextTimer()
 				continue
 			}
@@ -474,7 +480,7 @@ func (s *Sim) scanBlocked() {
 			k := 0
 			if nready > 1 {
 				k = s.chooseRaw(StreamSched, nready)
-				s.Counts["probe:select-multi-ready"]++
+				s.Count("probe:select-multi-ready")
 			}
 			for i := range t.cases {
 				if t.cases[i].ready() {
@@ -580,14 +586,14 @@ func (s *Sim) replayNext(stream, n int) int {
 	s.rpos[stream]++
 	if pos >= len(*tp) {
 		if !s.cfg.Lenient {
-			s.Counts["replay:exhausted"]++
+			s.Count("replay:exhausted")
 		}
 		return 0
 	}
 	v := int((*tp)[pos])
 	if v >= n {
 		if !s.cfg.Lenient {
-			s.Counts["replay:out-of-range"]++
+			s.Count("replay:out-of-range")
 		}
 		return 0
 	}
@@ -659,10 +665,48 @@ func (s *Sim) FailNow(oracle, format string, a ...any) {
 	}
 }
 
-// Count increments a per-run counter (fault kinds, reach probes).
+type countEntry struct {
+	name string
+	n    int
+}
+
+// Count increments a per-run counter (fault kinds, reach probes). The counters
+// live in a small slice (not a map) so that the race detector's map
+// instrumentation does not see the scheduler's bookkeeping.
 //
 //go:norace
-func (s *Sim) Count(name string) { s.Counts[name]++ }
+func (s *Sim) Count(name string) {
+	for i := range s.counts {
+		if s.counts[i].name == name {
+			s.counts[i].n++
+			return
+		}
+	}
+	s.counts = append(s.counts, countEntry{name, 1})
+}
+
+// Counter returns the current value of a counter.
+//
+//go:norace
+func (s *Sim) Counter(name string) int {
+	for i := range s.counts {
+		if s.counts[i].name == name {
+			return s.counts[i].n
+		}
+	}
+	return 0
+}
+
+// CountsMap returns all counters of the run.
+//
+//go:norace
+func (s *Sim) CountsMap() map[string]int {
+	m := make(map[string]int, len(s.counts))
+	for _, e := range s.counts {
+		m[e.name] = e.n
+	}
+	return m
+}
 
 // Hash returns the event hash of the run.
 //
@@ -805,7 +849,13 @@ func (t *Task) Blocked() bool { return t.state != stRunnable && t.state != stDon
 // Done reports whether the task has finished.
 //
 //go:norace
-func (t *Task) Done() bool { return t.state == stDone }
+func (t *Task) Done() bool {
+	if t.state == stDone {
+		t.doneEdge.Load()
+		return true
+	}
+	return false
+}
 
 // Site returns the site at which the task last gave up the token.
 //
